@@ -21,6 +21,12 @@ CHECKS["C12"] = dict(
     text="TLC enumerates every sequence of join/accept/leave/complete/tick events over 3 receivers up to the depth bound for max-receivers 1 and 2 (11 invariants incl. live-transfer bound, FIFO, no silent drop, work conservation); each transition is replayed on the real SnapshotSender, comparing queue/slots/statuses/emitted messages with the spec and evaluating the property on the stub-transfer census after every event.",
     note="trusted: TLC, the stub transfer function as ground truth, the environment assumption join->accept*->leave per receiver; bounds 3 receivers, depth 8 (quick) / 10 (thorough) + simulated depth 40/60")
 
+CHECKS["C11"] = dict(
+    category="model_checking", design_ref="5.6",
+    technique="TLA+ spec Hub.tla (phase-split operations, map-object identity) checked exhaustively with TLC; transitions replayed on the real peers.Hub with goroutine gates at the verifhook points",
+    text="TLC visits every interleaving of Add / three-phase remove / CloseSession / Broadcast(Except) copy-then-send / SendTo over 3 connections (same-peer-id reconnect, two sessions) and checks no-panic, routability, no-leak, isolation; sampled transitions of that graph are forced on the real Hub by parking each operation's goroutine between its lock regions, comparing maps and delivered messages with the spec and evaluating the oracle (recovered panics, List/SendTo for live peers, leftovers, stuck operations) on the real object.",
+    note="trusted: TLC, the gate placement at the hook points, goroutine-id based routing of hook events; bounds 3 connections, <=2 broadcasts, 1 SendTo; writer goroutine not gated")
+
 NOT_APPLICABLE = {}
 
 HOOK_COMMITS = ["6b59734", "6335744"]
